@@ -1,3 +1,4 @@
+#define _GNU_SOURCE
 /* h_redir.c — C10 (each standard stream connected where the options say) and C11 (nothing else is
  * inherited). Real exec; the helper reports the identity of every descriptor it was started with. */
 #include "hx.h"
@@ -348,6 +349,11 @@ static void c11_run(int tier, long cfg)
   int keep_src = 0;
   for (int i = 0; i < 5; i++) keep_src |= st[i] && fds[i] == src;
   if (!keep_src) close(src);
+  /* and one descriptor of the kind that only names a location (O_PATH, a directory handle): it cannot be read, written or polled, but it is
+   * inherited like any other */
+  int opath = open(".", O_PATH | O_DIRECTORY);
+  if (opath >= 0 && opath != 12) { dup2(opath, 12); close(opath); opath = 12; }
+  if (opath >= 0) fcntl(opath, F_SETFD, 0);
   reproc_options o;
   memset(&o, 0, sizeof o);
   if (rc == RC_PIPES) o.redirect.err.type = REPROC_REDIRECT_PIPE;
@@ -381,6 +387,10 @@ static void c11_run(int tier, long cfg)
   hx_destroy(p);
   for (int i = 0; i < 3; i++) if (uh[i] >= 0) close(uh[i]);
   for (int i = 0; i < 2; i++) if (uf[i]) fclose(uf[i]);
+  if (opath >= 0) {
+    if (fcntl(opath, F_GETFD) < 0) vk_violation("C05", "no-foreign-close", key, "the caller's O_PATH descriptor was closed by the library");
+    close(opath);
+  }
   /* the caller's descriptors are still there */
   for (int i = 0; i < 5; i++)
     if (st[i] && fcntl(fds[i], F_GETFD) < 0) vk_violation("C05", "no-foreign-close", key, "the caller's descriptor %d was closed by the library", fds[i]);
